@@ -805,7 +805,11 @@ def _arm(mode, n, report_fd, cur):
     os.write = w_os_write
 
 
-def _perform(spec, cur, before_run=None):
+class _NeedsLoop(BaseException):
+    pass
+
+
+def _perform(spec, cur, before_run=None, use_loop=True):
     from bumble.keys import JsonKeyStore
 
     store = JsonKeyStore(spec['ns'], os.path.join(cur, spec['main_rel']))
@@ -819,7 +823,16 @@ def _perform(spec, cur, before_run=None):
         coro = store.delete(spec['peer'])
     else:
         coro = store.delete_all()
-    asyncio.run(coro)
+    if use_loop:
+        asyncio.run(coro)
+        return
+    # the store's coroutines never really suspend: run them without an event loop (a loop
+    # costs more than the operation); if one does suspend, the helper switches to a loop
+    try:
+        coro.send(None)
+    except StopIteration:
+        return
+    raise _NeedsLoop()
 
 
 def _helper_main(argv):
@@ -832,7 +845,11 @@ def _helper_main(argv):
         spec = json.load(f)
     base = spec['base']
     cur = os.path.join(base, 'cur')
+    import gc
+
     import bumble.keys  # noqa: F401  (imported once, before any fork)
+    parent = os.getppid()
+    use_loop = False
 
     if what == 'op':
         try:
@@ -842,6 +859,9 @@ def _helper_main(argv):
         os._exit(0)
 
     results = []
+    gc.collect()
+    gc.freeze()
+    gc.disable()
     for mode in spec['modes']:
         n = 0
         while True:
@@ -849,6 +869,8 @@ def _helper_main(argv):
             if n > spec['cap']:
                 results.append({'mode': mode, 'n': n, 'code': None, 'cut': True})
                 break
+            if os.getppid() != parent:      # the check that started us is gone
+                os._exit(5)
             reset_cur(spec)
             rfd, wfd = os.pipe()
             pid = os.fork()
@@ -857,7 +879,9 @@ def _helper_main(argv):
                 try:
                     os.close(rfd)
                     signal.alarm(30)
-                    _perform(spec, cur, before_run=lambda: _arm(mode, n, wfd, cur))
+                    _perform(spec, cur, before_run=lambda: _arm(mode, n, wfd, cur), use_loop=use_loop)
+                except _NeedsLoop:
+                    os._exit(4)
                 except BaseException as e:
                     code = 3
                     try:
@@ -879,6 +903,10 @@ def _helper_main(argv):
                 info = json.loads(b''.join(chunks).decode()) if chunks else {}
             except Exception:
                 info = {'garbled': True}
+            if code == 4 and not use_loop:
+                use_loop = True
+                n -= 1
+                continue
             dname = f'c-{mode}-{n}'
             os.rename(cur, os.path.join(base, dname))
             results.append({'mode': mode, 'n': n, 'code': code, 'dir': dname, **info})
